@@ -9,7 +9,7 @@ access `tree[key]` is checked for every key kind.
 
 import re
 
-from vlib.build import build, descendants_of, shape_str, shapes_upto
+from vlib.build import build, descendants_of, max_siblings, shape_str, shapes_upto
 
 ID = "C09"
 FUNCTIONS = [
@@ -28,19 +28,28 @@ PATTERNS = ["a", "a.*", ".*b", "[ab]+", "x", "a|b", "b|a.", ("A.*", re.IGNORECAS
 
 
 def BOUNDS(tier):
-    n = 3 if tier == "quick" else 4
+    n = 4 if tier == "quick" else 5
     return {"max_nodes": n, "name_pool": POOL, "patterns": [str(p) for p in PATTERNS], "k": "None, 1..n+1"}
 
 
 def shards(tier):
     from vlib.mutprops import topo_orders
 
-    n = 3 if tier == "quick" else 4
-    out = [{"name": "search-%s" % shape_str(sh), "shape": list(sh)} for sh in shapes_upto(n, 1)]
+    n = 4 if tier == "quick" else 5
+    out = [{"name": "search-%s" % shape_str(sh), "shape": list(sh)} for sh in shapes_upto(n, 1) if max_siblings(sh) <= len(POOL)]
     # trees whose creation order differs from the document order (results must follow the tree)
     for sh in shapes_upto(3, 3):
         for order in topo_orders(sh)[1:3 if tier == "quick" else None]:
             out.append({"name": "search-%s-o%s" % (shape_str(sh), "".join(map(str, order))), "shape": list(sh), "order": list(order)})
+    # two clones below one start node, the later one (in document order) created first
+    four = shapes_upto(4, 4)
+    for sh in four:
+        if max_siblings(sh) > len(POOL):
+            continue
+        rev = [o for o in topo_orders(sh) if o != tuple(range(4))]
+        rev.sort(key=lambda o: list(o).index(3))  # orders that create the last node early come first
+        for order in rev[:2 if tier == "quick" else None]:
+            out.append({"name": "search-%s-o%s" % (shape_str(sh), "".join(map(str, order))), "shape": list(sh), "order": list(order), "cost": 30})
     return out
 
 
